@@ -110,6 +110,72 @@ def ideal_exact_out(pre, zfo, amount, f):
     return tin, steps, B
 
 
+
+# ---------------------------------------------------------------------------------------------
+# the exact curve as potentials (sums over the positions of the exact amounts each holds at a price), and the proved lower half of
+# the rounding sandwich for exact-in swaps: theorem C03_exact_in_lower,
+#   (A)  (in - 1) (1 - f) - in 10^-18 - k (1 + 10^-18 + 2 10^-24) - U  <  I(c1)      I(c) = exact cost of moving the price c0 -> c
+#   (B)  O(c1)  <  out + 1 + k (10^-18 + 10^-36 + 2 10^-24)                          O(c) = exact proceeds of that move
+# k = number of iterations of the swap loop, U = sum over the iterations of the input-token value of one unit (10^-36) of the sqrt
+# price at the iteration's liquidity and prices.  The oracle does not see the iterations: it uses the number of initialised ticks
+# between the two prices + 2 (each iteration but the last one or two crosses one) and for U that k times the largest per-iteration
+# value on the way; when that value reaches half a unit the loop can iterate without consuming (up to the no-progress limit of
+# 100), which is then added to k.
+# ---------------------------------------------------------------------------------------------
+TAU = Fraction(2, 10**24)
+CONSUME_ERR = 1 + TAU + Fraction(1, E18)
+PAY_ERR = Fraction(1, E18) + Fraction(1, E36) + TAU
+
+
+def potentials(st):
+    """(V0, V1): exact token0 / token1 held by all positions at raw sqrt price c"""
+    S = {int(t[0]): int(t[3]) for t in st["ticks"]}
+    ps = [(int(p[4]), S[int(p[2])], S[int(p[3])]) for p in st["pos"]]
+
+    def v0(c):
+        return sum(Fraction(L * E18, min(max(c, lo), hi)) - Fraction(L * E18, hi) for (L, lo, hi) in ps)
+
+    def v1(c):
+        return sum(Fraction(L * (min(max(c, lo), hi) - lo), E18 * E36) for (L, lo, hi) in ps)
+    return v0, v1
+
+
+def active_liq(st, t):
+    return sum(int(p[4]) for p in st["pos"] if int(p[2]) <= t < int(p[3]))
+
+
+def loop_bounds(prev, st, zfo):
+    """(k, U) as described above, from the two states only"""
+    lo, hi = sorted((int(prev["tick"]), int(st["tick"])))
+    between = [int(t[0]) for t in prev["ticks"] if lo - 1 <= int(t[0]) <= hi + 1]
+    k = len(between) + 2
+    pts = {lo, hi, lo - 1, hi + 1} | set(between) | {t - 1 for t in between}
+    lmax = max(active_liq(prev, t) for t in pts)
+    cmin = min(int(prev["sqrtp"]), int(st["sqrtp"]))
+    ulp = Fraction(lmax * E18, cmin * cmin) if zfo else Fraction(lmax, E18 * E36)
+    if 2 * ulp >= 1:
+        k += 101
+    return k, k * ulp
+
+
+def exact_in_lower(prev, st, zfo, tin, tout, f):
+    v0, v1 = potentials(prev)
+    vin, vout = (v0, v1) if zfo else (v1, v0)
+    c0, c1 = int(prev["sqrtp"]), int(st["sqrtp"])
+    cost = vin(c1) - vin(c0)
+    proceeds = vout(c0) - vout(c1)
+    k, U = loop_bounds(prev, st, zfo)
+    out = []
+    paid_for = (tin - 1) * (1 - f) - Fraction(tin, E18) - k * CONSUME_ERR - U
+    if not paid_for < cost:
+        out.append(("out_below_bound", "the price moved less far than was paid for: (in-1)(1-f) - in*1e-18 - k(1+1e-18+2e-24) - U = %s >= exact cost "
+                    "of the move %s (in=%d, k<=%d, U<=%s)" % (float(paid_for), float(cost), tin, k, float(U))))
+    if not proceeds < tout + 1 + k * PAY_ERR:
+        out.append(("out_below_bound", "paid out %d, but the exact proceeds of the price move are %s (> out + 1 + k(1e-18+1e-36+2e-24), k<=%d)"
+                    % (tout, float(proceeds), k)))
+    return out
+
+
 def oracle(c, obs):
     out = []
     f = Fraction(int(c["spread"]), E18)
@@ -154,16 +220,10 @@ def oracle(c, obs):
                     if left == 0:
                         if not tout <= ideal:
                             bad("out_gt_ideal", "paid out %d > ideal %s for %d in" % (tout, float(ideal), tin))
-                        # each of the k bucket steps may over-charge < 1 unit of the input token (amount in ceil'ed per step); the spread
-                        # charge uses ceil_18(f/(1-f)), i.e. up to A * 1e-18 more input goes to the spread account
-                        # (this lower bound is not a theorem - C03_error_bounded_full is kept as a Definition - so it is taken with a
-                        # margin: a thorough run of 10 800 swaps on the unchanged tree met the tight form `k+1+A*1e-18, -1` with
-                        # equality up to the last displayed digit in 7 cases)
-                        # + the input-token value of the sqrt-price granularity (10^-36) in the buckets visited (only visible at absurd liquidity)
-                        slack = 3 * (k + 1) + 3 * ((tin + E18 - 1) // E18) + int(3 * sum(ULP)) + (1 if sum(ULP) > 0 else 0)
-                        lo, _, _ = ideal_exact_in(prev, zfo, max(tin - slack, 0), f)
-                        if not lo - 2 - k <= tout:
-                            bad("out_below_bound", "paid out %d < ideal_out(A-%d)-1 = %s (A=%d, k=%d)" % (tout, slack, float(lo - 1), tin, k))
+                    # ... and not below it by more than the rounding explains: the two PROVED inequalities of C03_exact_in_lower
+                    # (coq/theories/C03/Sandwich.v), with exactly the proved constants
+                    for kind, what in exact_in_lower(prev, st, zfo, tin, tout, f):
+                        bad(kind, what)
                 else:
                     ideal, k, left = ideal_exact_out(prev, zfo, tout, f)
                     if left == 0:
@@ -376,7 +436,8 @@ def nontrivial(obs):
 
 
 def selftest(pairs, K, out):
-    c, o = next(((c, o) for c, o in pairs if any(s["err"] == 0 and s["rop"]["k"] == "swap_in" and int(s["res"][0]) > 10 for s in o["steps"])), pairs[0])
+    big = lambda lim: next(((c, o) for c, o in pairs if any(s["err"] == 0 and s["rop"]["k"] == "swap_in" and int(s["res"][0]) > lim for s in o["steps"])), None)
+    c, o = big(400) or big(10) or pairs[0]
     o2 = copy.deepcopy(o)
     st = next(s for s in o2["steps"] if s["err"] == 0 and s["rop"]["k"] == "swap_in" and int(s["res"][0]) > 10)
     x = int(st["res"][0]) + 5                      # the pool pays out more than twice as much, consistently in response and balances
@@ -387,6 +448,18 @@ def selftest(pairs, K, out):
     kinds = {v["rec"]["kind"] for v in oracle(c, o2)}
     if not {"out_gt_ideal", "estimate_ne_execute"} <= kinds:
         out.mismatches.append({"what": "self-test: the oracle did not flag a doubled amount out (%s)" % sorted(kinds), "case": None})
+    # the pool pays out 150 less than it did (consistently): below the exact proceeds of the price move by more than the proved allowance
+    o4 = copy.deepcopy(o)
+    cand = [s for s in o4["steps"] if s["err"] == 0 and s["rop"]["k"] == "swap_in" and int(s["res"][0]) > 400]
+    if cand:
+        st4 = cand[0]
+        i_out = 1 if st4["rop"].get("zfo") else 0
+        st4["res"][0] = str(int(st4["res"][0]) - 150)
+        st4["bal"][3 + st4["rop"]["a"]][i_out] = str(int(st4["bal"][3 + st4["rop"]["a"]][i_out]) - 150)
+        st4["bal"][0][i_out] = str(int(st4["bal"][0][i_out]) + 150)
+        kinds4 = {v["rec"]["kind"] for v in oracle(c, o4)}
+        if "out_below_bound" not in kinds4:
+            out.mismatches.append({"what": "self-test: the oracle did not flag an amount out 150 below the exact proceeds (%s)" % sorted(kinds4), "case": None})
     o3 = copy.deepcopy(o)
     st3 = next(s for s in o3["steps"] if s["rop"]["k"] in ("swap_in", "swap_out") and s["est"]["err"] == 0)
     st3["est"]["amt"] = str(int(st3["est"]["amt"]) + 1)
@@ -394,7 +467,8 @@ def selftest(pairs, K, out):
     if errs or bad != [1]:
         out.mismatches.append({"what": "self-test: case_ok did not reject exactly the perturbed estimate (got %s %s)" % (bad, errs[:1]), "case": None})
     else:
-        out.notes.append("self-test passed: oracle flags a doubled amount out (out_gt_ideal, estimate_ne_execute); case_ok rejects an estimate off by one and accepts the original")
+        out.notes.append("self-test passed: oracle flags a doubled amount out (out_gt_ideal, estimate_ne_execute) and an amount out 150 below the exact proceeds "
+                         "(out_below_bound, the proved lower half); case_ok rejects an estimate off by one and accepts the original")
 
 
 def run_cases(cases, model_ok, out, tag, K, selft=False):
@@ -497,11 +571,13 @@ def replay(path):
     return 1 if (out.oracle_violations or out.mismatches) else 0
 
 
-SCOPE = ("partial: proved - per-step rounding lemmas, whole-swap never-above / never-below the exact curve in the path form (C03_exact_in_vs_ideal, "
-         "C03_exact_out_vs_ideal; token1-in with an explicit slack of 1/2*10^-36 token per step, refutation witness included), estimate = execution "
-         "(+ refuted converse), there-and-back (C03_there_and_back_le, all states with the C07 invariant, any number of buckets, via C01's potentials); "
-         "missing - the lower half of the rounding sandwich as a function of the input (kept as C03_error_bounded_full inside C03_full; checked on the "
-         "implementation by the oracle)")
+SCOPE = ("full (C03_full_proved): per-step rounding lemmas; whole-swap never-above / never-below the exact curve in the path form (C03_exact_in_vs_ideal, "
+         "C03_exact_out_vs_ideal; token1-in with an explicit slack of 1/2*10^-36 token per step, refutation witness included); the lower half of the "
+         "rounding sandwich for exact-in swaps in the potential form with explicit allowances (C03_exact_in_lower / C03_exact_in_sandwich_lower: "
+         "(in-1)(1-f) - in*1e-18 - k(1+1e-18+2e-24) - U < exact cost of the price move, exact proceeds < out + 1 + k(1e-18+1e-36+2e-24), k iterations, "
+         "U = sum of the input-token value of one 1e-36 unit of sqrt price); estimate = execution (+ refuted converse); there-and-back "
+         "(C03_there_and_back_le, all states with the C07 invariant). Not proved: the lower half for exact-OUT swaps (oracle only, loosened margin); "
+         "the equivalence of the tick-by-tick ideal walk with the potentials (C03_error_bounded_walk_form)")
 EXPLANATION = ("Theorems over the Gallina model CL/{CLMath,CLSwap}.v (function-by-function transcription of swaps.go, swapstrategy/*.go, math/math.go) and the exact "
                "rational walk CL/Ideal.v; the model is tied to /repo by running the real swap route (full app) on generated pool states and comparing every response, "
                "the pool after every operation and the estimate queries; an independent oracle walks the exact curve with python Fractions through the "
